@@ -1,6 +1,6 @@
 (* Property C15 — a published object is retrieved byte-for-byte, newest version, completing once.
    Only theorem statements closed by `exact`, each followed by Print Assumptions. *)
-From Object Require Import ObjSeg ObjSegProofs Defects.
+From Object Require Import ObjSeg ObjSegProofs Defects Fetch FetchStream FetchSafe FetchLive FetchBudget FetchCheck.
 Open Scope nat_scope.
 
 Definition S8000 : nat := N.to_nat pSegmentSize.
@@ -34,7 +34,49 @@ Theorem produce_alias_refuted_before_fix :
 Proof. exact produce_alias_refuted. Qed.
 Print Assumptions produce_alias_refuted_before_fix.
 
+(* consume_any_order — the consumer state machine (Consume / consumeObject / fetchMetadata / rrSegFetcher / Content /
+   ExpressR) under EVERY schedule of run-loop iterations, Consume calls and engine results:
+   W sid = the segments of the object stream sid fetches; run_ok = every result the engine reports for a segment Interest
+   is a failure (timeout, nack, ...) or the honest Data of that segment (so: any arrival order, any losses, any
+   retransmissions); run_clean = no Interest runs out of retries, no nack/engine error, names non-empty, metadata names a
+   version. Then, for every stream, at every moment: no unchecked index, at most one completion, the bytes handed out
+   are a prefix of the object in order; and in every quiescent state (nothing queued or in flight) the completion HAS
+   been reported, exactly once, as the last callback, with an error or with exactly the published bytes — and with the
+   published bytes if the run is clean. *)
+Theorem consume_any_order : forall (W : nat -> list bytes), wf_world W ->
+  forall evs, run_ok W cl_init evs ->
+  let c := fold_left step evs cl_init in
+  forall sid, sid < nstreams c ->
+  let st := get_stream c sid in
+  s_panic st = false /\
+  completions (s_log st) <= 1 /\
+  (exists m, log_chunks (s_log st) = concat (firstn m (W sid))) /\
+  (quiescent c ->
+     s_complete st = true /\ completions (s_log st) = 1 /\
+     consume_log_ok (concat (W sid)) true (s_log st) = true /\
+     (run_clean cl_init evs -> consume_log_ok (concat (W sid)) false (s_log st) = true)).
+Proof. exact FetchBudget.consume_any_order. Qed.
+Print Assumptions consume_any_order.
+
+(* error_once: a consumer that ends with an error has exactly one completion callback, the last one, carrying that
+   error (finalizeError is idempotent and handleData ignores finished streams), for every schedule *)
+Theorem error_once : forall (W : nat -> list bytes), wf_world W ->
+  forall evs, run_ok W cl_init evs ->
+  let c := fold_left step evs cl_init in
+  forall sid e, sid < nstreams c -> s_err (get_stream c sid) = Some e ->
+  exists l r, s_log (get_stream c sid) = l ++ [r] /\ cb_complete r = true /\ cb_err r = Some e /\ completions l = 0.
+Proof. exact FetchBudget.error_once. Qed.
+Print Assumptions error_once.
+
 (* non-vacuity: the source constant is positive and a 3-buffer split of 5 bytes with S = 2 gives 3 segments *)
 Example c15_example :
   0 < S8000 /\ map (@concat byte) (segments 2 [[1;2;3]; []; [4;5]]%N) = [[1;2];[3;4];[5]]%N.
 Proof. split; [unfold S8000, pSegmentSize; lia|vm_compute; reflexivity]. Qed.
+
+(* non-vacuity of consume_any_order: a three-segment object, replies arriving in the order 0, 2, (timeout of 1), 1 —
+   the run is honest, clean and quiescent, and the consumer was handed exactly the six published bytes *)
+Example c15_consume_example :
+  wf_world ex_W /\ run_ok ex_W cl_init ex_evs /\ run_clean cl_init ex_evs /\
+  quiescent (fold_left step ex_evs cl_init) /\
+  log_chunks (s_log (get_stream (fold_left step ex_evs cl_init) 0)) = [1;2;3;4;5;6]%N.
+Proof. exact (conj ex_wf consume_example). Qed.
